@@ -144,7 +144,6 @@ def generate_mpo(I, terms=None, opts_svd=None, N=None, f_map=None) -> MpsMpoOBC:
         Iind = [ind_list_tensors(In, unique_ops) for In in I]
         Iind = [Iind[n % len(Iind)] for n in range(N)]
 
-    M = len(terms)
     config = unique_ops[0].config
     sym = config.sym
     #
@@ -152,7 +151,7 @@ def generate_mpo(I, terms=None, opts_svd=None, N=None, f_map=None) -> MpsMpoOBC:
     # i.e., operators at later sites in the chain are applied first
     # sign to permute to canonical order is calculated in signs
     f_ordered = lambda s0, s1: s0 <= s1
-    signs, sitess, opss, op_patterns = [], [], [], []
+    signs, sitess, opss, op_patterns, vanishing = [], [], [], [], []
     for term in terms:
         if any(site < 0 or site >= N or not isinstance(site, numbers.Integral) for site in term.positions):
             raise YastnError("Hterm: positions should be in 0, 1, ..., N-1.")
@@ -162,16 +161,23 @@ def generate_mpo(I, terms=None, opts_svd=None, N=None, f_map=None) -> MpsMpoOBC:
         f_positions = term.positions if f_map is None else [f_map[site] for site in term.positions]
         signs.append(sign_canonical_order(*term.operators, sites=f_positions, f_ordered=f_ordered))
         sites_ops = sorted(zip(term.positions, term.operators), key=itemgetter(0))
-        sites, ops = [], []
+        sites, ops, vanishes = [], [], False
         for site, group in groupby(sites_ops, key=itemgetter(0)):
             sites.append(site)
             op = next(group)[1]
             for el in group:
                 op = op @ el[1]
+            vanishes = vanishes or op.norm() == 0
             ops.append(ind_list_tensors(op, unique_ops))
         sites.append(N)
         sitess.append(sites)
         opss.append(ind_list(ops, op_patterns))
+        vanishing.append(vanishes)
+
+    # a term whose product of operators on some site is zero contributes nothing (and has no block to place in the basis below)
+    keep = [k for k, vanishes in enumerate(vanishing) if not vanishes] or [0]
+    terms, signs, sitess, opss = ([x[k] for k in keep] for x in (terms, signs, sitess, opss))
+    M = len(terms)
 
     n_patterns = [[unique_ops[ind].n for ind in ops] for ops in op_patterns]
     acc_n_patterns = [[sym.add_charges(*ns[n:]) for n in range(len(ns) + 1)] for ns in n_patterns]
